@@ -4,7 +4,8 @@
    D steps per behaviour; at depth D the case is written out.  Depth(sre) <= MaxDepth and
    Len(subject) <= MaxLen by construction; only well-formed SREs (Regex!WF) are emitted.   *)
 EXTENDS Regex, TLC, Json
-CONSTANTS Sigma, D, MaxDepth, MaxLen
+CONSTANTS Sigma, D, MaxDepth, MaxLen,
+          Named        \* TRUE: leaves are also drawn from the named classes, char-set algebra and w/ascii are used
 VARIABLES stk, subj, tick
 vars == <<stk, subj, tick>>
 
@@ -13,6 +14,7 @@ Lits == {<<"lit", c>> : c \in Sigma}
 Classes == UNION { {<<"set", T>> : T \in {U \in SUBSET Sigma : Cardinality(U) \in 1..3}},
                    {<<"nset", {c}>> : c \in Sigma},
                    {<<"range", p[1], p[2]>> : p \in {q \in Sigma \X Sigma : q[1] <= q[2]}}, {<<"any">>} }
+NamedAtoms == {<<"cls", nm>> : nm \in ClassNames} \cup {<<"nonl">>}
 Zero == {<<"bol">>, <<"eol">>, <<"eps">>}
 Reps == {<<0, 1>>, <<0, 2>>, <<1, 1>>, <<1, 2>>, <<1, 3>>, <<2, 2>>, <<2, 3>>, <<3, 3>>, <<0, -1>>, <<1, -1>>, <<2, -1>>}
 MaxD(q) == IF Len(q) = 0 THEN 0 ELSE
@@ -25,16 +27,19 @@ Pop2 == SubSeq(stk, 1, Len(stk) - 2)
 
 Push == /\ Len(stk) < 3
         /\ LET k == Pick(10) IN
-           \E a \in (IF k <= 5 THEN Lits ELSE IF k <= 8 THEN Classes ELSE IF k = 9 \/ Pick(3) > 1 THEN Zero ELSE {<<"empty">>}) :
+           \E a \in (IF k <= 4 THEN Lits ELSE IF k <= 6 /\ Named THEN NamedAtoms ELSE IF k <= 8 THEN Classes ELSE IF k = 9 \/ Pick(3) > 1 THEN Zero ELSE {<<"empty">>}) :
                stk' = Append(stk, a)
         /\ Fits(stk') /\ UNCHANGED subj
 Wrap == /\ Len(stk) >= 1
         /\ \/ \E t \in {"star", "plus", "opt", "sub", "sub", "nocase"} : stk' = Append(Pop1, <<t, Top>>)
+           \/ Named /\ stk' = Append(Pop1, <<"ascii", Top>>)
+           \/ Named /\ IsCs(Top) /\ \E t \in {"ccompl", "cnocase", "cascii"} : stk' = Append(Pop1, <<t, Top>>)
            \/ \E mn \in (IF Pick(20) = 1 THEN {<<0, 0>>} ELSE Reps) : stk' = Append(Pop1, <<"rep", mn[1], mn[2], Top>>)
         /\ Fits(stk') /\ WF(stk'[Len(stk')]) /\ Tractable(stk'[Len(stk')]) /\ UNCHANGED subj
 Combine == /\ Len(stk) >= 2
-           /\ \E t \in {"seq", "seq", "or"} : stk' = Append(Pop2, <<t, stk[Len(stk) - 1], Top>>)
-           /\ UNCHANGED subj
+           /\ \/ \E t \in {"seq", "seq", "or"} : stk' = Append(Pop2, <<t, stk[Len(stk) - 1], Top>>)
+              \/ Named /\ IsCs(Top) /\ IsCs(stk[Len(stk) - 1]) /\ \E t \in {"cor", "cand", "cdiff"} : stk' = Append(Pop2, <<t, stk[Len(stk) - 1], Top>>)
+           /\ WF(stk'[Len(stk')]) /\ Tractable(stk'[Len(stk')]) /\ UNCHANGED subj
 Grow == /\ Len(subj) < MaxLen /\ \E c \in Sigma : subj' = Append(subj, c) /\ UNCHANGED stk
 
 Step == LET k == Pick(12) IN
